@@ -398,7 +398,12 @@ impl HttpError {
         // builder one-by-one, as we can just reuse the existing header map.
         // It's fine to clobber the builder's header map, as we just created the
         // builder and the header map is empty.
-        if let Some(headers) = self.headers {
+        if let Some(mut headers) = self.headers {
+            // The content type and request ID are set below.  Drop any values
+            // attached to the error for those headers so that the response
+            // carries exactly one of each.
+            headers.remove(http::header::CONTENT_TYPE);
+            headers.remove(super::http_util::HEADER_REQUEST_ID);
             let builder_headers = builder
                 .headers_mut()
                 // `headers_mut()` returns `None` in the case that the builder is in
